@@ -24,6 +24,10 @@ THEOREMS = [
      "forall args : list str, quoted_str_split (ping_data args) = args"),
     ("escaped_bounded",
      "forall s : str, (escaped (run_state split_init s) <= 1)%N"),
+    ("split_invents_nothing",
+     "forall s : str, subseq (concat (quoted_str_split s)) s"),
+    ("split_no_amplification",
+     "forall s : str, (length (concat (quoted_str_split s)) <= length s)%nat"),
     ("utf8_decode_encode",
      "forall s : str, all_scalar s = true -> utf8_decode (utf8_encode s) = Some s"),
     ("frame_spec",
